@@ -13,7 +13,7 @@ def fieldType : Field → Option Kind
 
 /-- **level filter, write side**: the groups and the `fields` attribute written for a list of fields are
 exactly — in order — the fields whose write level is at least the requested one -/
-theorem writeFields_names (h : Heap) (lvl : Nat) : ∀ (fs : List Field) (pre : String) (memo : WMemo)
+theorem writeFields_names (h : Heap) (lvl : Nat) : ∀ (fs : List Field) (pre : Path) (memo : WMemo)
     (groups : List (String × Grp)) (mem : List (String × Option Kind)) (memo' : WMemo),
     writeField.writeFields h lvl fs pre memo = .ok (groups, mem, memo') →
     groups.map (·.1) = (restrictFields lvl fs).map Field.name ∧
@@ -62,7 +62,7 @@ theorem writeDS_members (h : Heap) (d : DS) (lvl : Nat) (file : File) (hw : writ
   · simp at hw
   · rename_i groups mem memo' hwf
     simp only [Except.ok.injEq] at hw; subst hw
-    obtain ⟨a, b⟩ := writeFields_names h lvl d.fields "" _ groups mem memo' hwf
+    obtain ⟨a, b⟩ := writeFields_names h lvl d.fields [] _ groups mem memo' hwf
     exact ⟨rfl, b, a⟩
 
 /-- `restrict` keeps exactly the fields of the level, recursively -/
@@ -88,17 +88,17 @@ theorem restrict_level (lvl : Nat) : ∀ (fs : List Field), ∀ f ∈ restrictFi
 /-- **an array without references is read back bit for bit**: writing a plain / sigma / time(-delta)
 array and reading the group allocates exactly the array that was written — same kind, shape and rows —
 whatever the read memo holds -/
-theorem readArr_writeArr (h : Heap) (file : File) (o : Nat) (ob : Obj) (fieldname : String) (wm : WMemo)
+theorem readArr_writeArr (h : Heap) (file : File) (o : Nat) (ob : Obj) (p : Path) (wm : WMemo)
     (g : Grp) (wm' : WMemo) (fw fr : Nat) (s : RSt)
-    (hob : h[o]? = some ob) (hk : (ob.kind.hasOther || ob.kind.isDelta) = false)
-    (hw : writeArr h (fw + 1) o fieldname wm = .ok (g, wm')) :
-    wm' = wm ∧ g.attrs.fieldname = fieldname ∧
-    ∃ s', readArr file (fr + 1) g s = .ok (s.heap.length, s') ∧
-      s'.heap = s.heap ++ [{ ob with other := none, refPos := none }] := by
-  simp only [writeArr, hob, hk, Bool.not_false, if_true, Except.ok.injEq, Prod.mk.injEq] at hw
+    (hob : h[o]? = some ob) (hk : attrName ob.kind = none)
+    (hw : writeArr h (fw + 1) o p wm = .ok (g, wm')) :
+    wm' = wm ∧ g.attrs.fieldname = p ∧
+    ∃ s', readArr file (fr + 1) g s = .ok (s.heap.length, s') ∧ s'.heap = s.heap ++ [ob.strip] := by
+  simp only [writeArr, hob, hk, Except.ok.injEq, Prod.mk.injEq] at hw
   obtain ⟨rfl, rfl⟩ := hw
   refine ⟨rfl, rfl, ?_⟩
-  simp only [readArr, hk, Bool.false_eq_true, if_false, RSt.alloc]
+  have hk' : attrName ob.strip.kind = none := hk
+  simp only [readArr, hk', RSt.alloc]
   split <;> exact ⟨_, rfl, rfl⟩
 
 /-- units survive (`None ↔ ""`): a unit tuple with a non-empty entry is read back as it is, no unit as
